@@ -290,7 +290,17 @@ def key_eq(I, ctx, a, b):
         if a.name == b.name and a.name not in ('f64',):
             crate = getattr(ctx, 'cur_crate', None) or I.default_crate
             tgt = I.resolve_static(crate, f'<{a.name} as PartialEq>::eq')
-            if tgt is not None and tgt[0] == 'fn':
+            # same-named types: an enum's derived eq is not the eq of a struct value (ast::Range vs source::Range / lsp_types::Range)
+            info = I.crates.get(crate)
+            shape_ok = not (a.vidx is None and info is not None and a.name in info.enums and a.name in getattr(info, 'structs', {}))
+            if tgt is not None and tgt[0] == 'fn' and shape_ok:
+                if a.vidx is None and any(a.name in i2.enums for i2 in I.crates.values()):
+                    # a struct value whose name is also an enum's somewhere (lsp_types::Range / source::Range vs ast::Range): the enum's derived
+                    # eq starts with a discriminant read and is not this type's eq
+                    try: return I.call_fn(ctx, tgt[1], [ValRef(a), ValRef(b)])
+                    except Unsupported as u:
+                        if 'discriminant of non-enum' not in str(u): raise
+                        return values_eq(I, ctx, a, b)
                 return I.call_fn(ctx, tgt[1], [ValRef(a), ValRef(b)])
     return values_eq(I, ctx, a, b)
 
